@@ -555,6 +555,9 @@ func addTree(
 		if tree.FileInfo != nil && tree.FileInfo.Mode != 0 && c.Type != TypeSymlink {
 			c.FileInfo.Mode = tree.FileInfo.Mode
 		}
+		if tree.FileInfo != nil && !tree.FileInfo.MTime.IsZero() {
+			c.FileInfo.MTime = tree.FileInfo.MTime
+		}
 
 		// only an implicit directory may be replaced, and only by a directory
 		if present, occupied := lookupDestination(all, c.Destination); occupied &&
